@@ -73,7 +73,8 @@ RndValue(seed) ==
       n == 1 + (r[1] % 3)
   IN [flags |-> HeaderFlags[1 + (r[2] % 3)], specs |-> [k \in 1..n |-> RndSpec(r, 2 + (k - 1) * (NF + 1) + 1)]]
 RndSeeds == IF Quick THEN {} ELSE { (3000 + 211 * k + 13 * SeedBase) % 65537 : k \in 1..6 }
-RndSteps == 2000
+RndSteps == 4000
+GenRndSteps == 2000     \* of which this many per chain are also printed for replay
 
 VARIABLE c
 Init == c = [k |-> "root"]
@@ -109,6 +110,6 @@ Inv == CASE c.k = "val" -> Laws(c.v)
 EmitOne(v) == LET ct == AssetContent(v) IN
               PrintT("G " \o ToJson([value |-> v, expect |-> Norm(v), content |-> ct, image |-> ImageOrNone(ct)]))
 Emit == CASE c.k = "val" -> EmitOne(c.v)
-          [] c.k = "rnd" -> EmitOne(RndValue(c.seed))
+          [] c.k = "rnd" /\ c.step < GenRndSteps -> EmitOne(RndValue(c.seed))
           [] OTHER -> TRUE
 =============================================================================
